@@ -427,6 +427,7 @@ Proof.
       - intros G1. specialize (HI _ _ G1). try rewrite T in HI. auto. }
     destruct (o_completed o0) eqn:C; simpl; try rewrite T; intros r1 o1 G1; apply K; rewrite get_upd in G1; rewrite get_upd;
       (destruct (Nat.eqb_spec r1 r); [subst; rewrite G in *; simpl in *; rewrite C; exact G1 | exact G1]).
+  - (* ORetune *) exact HI.
 Qed.
 
 (* ------------------------------------------------------------------ completion is monotone, first result wins *)
